@@ -96,6 +96,20 @@ impl Model {
         }
     }
 
+    /// The 0x300 probabilities of one literal context.
+    pub fn lit_row(&self, ctx: usize) -> &[u16] {
+        &self.lit[ctx * 0x300..(ctx + 1) * 0x300]
+    }
+
+    /// Number of literal-coder probabilities that differ from their initial value.
+    pub fn lit_dirty(&self) -> usize {
+        self.lit.iter().filter(|&&p| p != 0x400).count()
+    }
+
+    pub fn is_match_cell(&self, state: usize, pos_state: usize) -> u16 {
+        self.is_match[state][pos_state]
+    }
+
     /// LZMA2 "state reset" (optionally with new properties).
     pub fn reset(&mut self, props: Props) {
         *self = Model::new(props);
